@@ -51,9 +51,15 @@ def strip_comments(src):
     return "".join(out)
 
 
+def modules_of(prop):
+    """theorem modules of a property: its own file plus those named in PROPS[prop]['modules']"""
+    from harness import props
+    return [prop] + list(props.PROPS.get(prop, {}).get("modules", []))
+
+
 def lean_build(prop):
-    """build the property's theorem module and the driver; returns (ok, log)"""
-    targets = f"PS.Theorems.{prop} driver"
+    """build the property's theorem modules and the driver; returns (ok, log)"""
+    targets = " ".join(f"PS.Theorems.{m}" for m in modules_of(prop)) + " driver"
     rc, out = sh(f"lake build {targets}", cwd=LEAN)
     return rc == 0, out
 
@@ -65,7 +71,8 @@ def lean_audit(prop, theorems):
     if theorems:
         tmp = os.path.join(LEAN, f".audit_{prop}_{os.getpid()}.lean")
         with open(tmp, "w") as f:
-            f.write(f"import PS.Theorems.{prop}\n" + "".join(f"#print axioms PS.{t}\n" for t in theorems))
+            f.write("".join(f"import PS.Theorems.{m}\n" for m in modules_of(prop)) +
+                    "".join(f"#print axioms PS.{t}\n" for t in theorems))
         try:
             rc, out = sh(f"lake env lean {os.path.basename(tmp)}", cwd=LEAN)
         finally:
@@ -200,7 +207,8 @@ def main():
         p = rep.replay_path({"property": a.prop, "no_longer_checks": rep.broken, "notes": rep.notes[-5:]})
         rep.violations.append((p, False))
     rep.write_evidence(spec["rule"], props.TRUSTED, spec["assumptions"],
-                       f"cd lean && lake build PS.Theorems.{a.prop} && #print axioms <each theorem>")
+                       "cd lean && lake build " + " ".join(f"PS.Theorems.{m}" for m in modules_of(a.prop)) +
+                       " && #print axioms <each theorem>")
     for k in rep.known:
         print(f"KNOWN-FINDING: property={a.prop} {k}")
     if rep.violations:
